@@ -251,6 +251,14 @@ def require_overflow_checks(P, rep, rule):
               'Cargo.toml', 'overflow-checks = %s' % prof.get('raw'))
 
 
+def is_modulo_carry(t, expected):
+    """t is `expected`, possibly joined with the loop-carried copy of itself (a field of a loop-state struct that the loop never
+    updates reads as phi(initial value, same field of the carried struct))"""
+    al = [core(a) for a in alts(t)]
+    rest = [a for a in al if not is_mu(a)]
+    return len(rest) == 1 and rest[0] == expected
+
+
 def adt_of(c, name, pred=None):
     """ADT table entry of the workspace type called `name`, whatever module it lives in (pred picks among namesakes)"""
     cands = [a for n, a in sorted(c.adts.items()) if n == name or n.endswith('::' + name)]
